@@ -176,6 +176,32 @@ def run(tier: str, seed: int) -> int:
         v = np.asarray(ex.map_between_resolutions(jnp.asarray(u), M))
         if abs(v.mean() - u.mean()) > 1e-12 * (1 + maxabs(u)):
             run_.violation({"kind": "resample-mean", "D": D, "N": N, "M": M}, {})
+    # ---- dense band-limited states (every mode of the box |k_i| < min(N, M)/2, corners included) evaluated analytically on both grids:
+    # the resampled field is the same function; pairs beyond the TLC table (larger even coarse grids, both directions)
+    def dense(D, n, Ns, L):
+        km = (n - 1) // 2
+        ks = np.arange(-km, km + 1)
+        c = rng.standard_normal((len(ks),) * D) + 1j * rng.standard_normal((len(ks),) * D)
+        outs = []
+        for Ng in Ns:
+            E = np.exp(2j * np.pi * np.outer(np.arange(Ng), ks) / Ng)       # [j, k]
+            v = c
+            for d in range(D):
+                v = np.moveaxis(np.tensordot(E, v, axes=([1], [d])), 0, d)
+            outs.append(v.real)
+        return outs
+    dense_pairs = [(1, 16, 24), (1, 24, 16), (1, 15, 10), (2, 8, 11), (2, 8, 12), (2, 12, 8), (2, 11, 8), (2, 10, 16), (2, 9, 14), (2, 14, 9),
+                   (3, 6, 8), (3, 8, 6), (3, 6, 9), (3, 9, 6), (3, 8, 10)]
+    if tier != "quick":
+        dense_pairs += [(2, a, b) for a in range(13, 21) for b in (a + 1, a + 3, 2 * a)] + [(2, b, a) for a in range(13, 21) for b in (a + 1, a + 3, 2 * a)] \
+            + [(3, a, b) for a in range(9, 13) for b in (a + 1, a + 2)] + [(3, b, a) for a in range(9, 13) for b in (a + 1, a + 2)]
+    for D, N, M in dense_pairs:
+        run_.case(("dense", D, N, M))
+        uN, uM = dense(D, min(N, M), (N, M), 1.0)
+        v = np.asarray(ex.map_between_resolutions(jnp.asarray(uN[None]), M))[0]
+        if maxabs(v - uM) > 1e-10 * (1 + maxabs(uM)):
+            run_.violation({"kind": "resample-dense", "D": D, "N": N, "M": M, "what": "band-limited state is not the same function on the new grid"},
+                           {"err": maxabs(v - uM), "scale": maxabs(uM)})
     run_.traces += len(inputs)
     run_.rule = ("resample cases: every TLC terminal state (D, N, M, wavenumber of the old grid incl. Nyquist) with random amplitude/phase/L/channel "
                  "count; mean / round-trip / identity cases per (D, N, M); interpolation cases per basis function at random points inside and outside "
